@@ -431,6 +431,10 @@ void getOffsetAndCount(const MultiTag &tag, const DataArray &array, const vector
     if (extents) {
         extent_size = extents.dataExtent();
     }
+    if (indices.empty()) {
+        // nothing requested (e.g. "all positions" of an empty positions array)
+        return;
+    }
     ndsize_t max_index = *max_element(indices.begin(), indices.end());
     if (max_index >= positions.dataExtent()[0] || (extents && max_index >= extents.dataExtent()[0])) {
         throw OutOfBounds("Index out of bounds of positions or extents!", 0);
@@ -841,6 +845,10 @@ std::vector<DataView> featureData(const MultiTag &tag, std::vector<ndsize_t> pos
         return views;
     }
 
+    if (position_indices.empty()) {
+        // "all positions" of an empty positions array
+        return views;
+    }
     ndsize_t max_index = *max_element(position_indices.begin(), position_indices.end());
     if (max_index >= tag.positions().dataExtent()[0]) {
         throw OutOfBounds("Index out of bounds of positions!", 0);
